@@ -220,6 +220,68 @@ Proof.
   - vm_compute. lia.
 Qed.
 
+(* ---- silence in the middle of a GameSpy 1 reply: the first k parts of a reply of several parts arrive (k below the
+   number of parts; k = 0 is a request that gets no answer), then nothing.  Any number of such attempts up to the retry
+   count, then a valid reply, gives the fault-free result. ---- *)
+From GD Require Import Proofs.Gamespy1Partial.
+Theorem c10_gs1_cut_means : forall s k, silent_after s k = map Datagram (firstn k (s1_script s)) ++ [Timeout].
+Proof. reflexivity. Qed.
+Print Assumptions c10_gs1_cut_means.
+Theorem c10_gs1_cut_replies_retried : forall port s,
+  Forall pair_ok (s1_vars s) -> s1_qid s <= 18446744073709551615 ->
+  Forall (fun d => (length d <= 1024)%nat) (s1_script s) -> N.of_nat (length (s1_script s)) < 4294967296 ->
+  forall t ks, settings_ok t -> Forall (fun k => (k < length (s1_script s))%nat) ks -> (length ks <= N.to_nat (ts_retries_or_default t))%nat ->
+  wf_s1 s = true -> nodupb (map fst (s1_vars s)) = true ->
+  fst (gs1_query port t (net_init (flat_map (silent_after s) ks ++ map Datagram (s1_script s)) [] [])) = Ok (s1_expected s).
+Proof. exact gs1_cut_replies_retried. Qed.
+Print Assumptions c10_gs1_cut_replies_retried.
+(* test: a generated reply of several parts; all but the last arrive, then silence.  With one retry the answer is the
+   fault-free one, with none the query fails with the receive timeout *)
+Example c10_gs1_cut_ex :
+  let s1 := fst (gen_s1 4) in
+  let k := (length (s1_script s1) - 1)%nat in
+  let net := net_init (silent_after s1 k ++ map Datagram (s1_script s1)) [] [] in
+  (1 <=? k)%nat = true /\ (k <? length (s1_script s1))%nat = true /\
+  bytes_eqb (show_outcome show_gs1 (fst (gs1_query 1 (Some (mkts (Some (4, 0)) (Some (4, 0)) (Some (4, 0)) 1)) net)))
+            (show_outcome show_gs1 (Ok (s1_expected s1))) = true /\
+  bytes_eqb (show_outcome show_gs1 (fst (gs1_query 1 None net))) (show_outcome show_gs1 (Err PacketReceive)) = true.
+Proof. vm_compute. repeat split. Qed.
+
+(* ---- the retries run out inside these exchanges: retries + 1 faulty attempts (any mix of the faults above), then
+   anything at all - even a valid reply: the query fails with a timeout-class error and has consumed exactly the events of
+   those attempts; what follows is untouched, so no further attempt was made. ---- *)
+From GD Require Import Proofs.RetryExhaust.
+Theorem c10_exactly_r_plus_1_timeouts_give_up : forall A (att : M A) r n m, timeouts_then att (S (N.to_nat r)) n m ->
+  exists e, retry_on_timeout r att n = (Err e, m) /\ timeout_class e = true.
+Proof. exact @retry_exhausted. Qed.
+Print Assumptions c10_exactly_r_plus_1_timeouts_give_up.
+Theorem c10_gs3_retries_exhausted : forall port s,
+  (- 2147483648 <= s3_challenge s < 2147483648)%Z -> (length (show_Z (s3_challenge s)) <= 10)%nat ->
+  (length (s3_payloads s) <= 128)%nat -> Forall (fun p => (length p + 17 <= 2048)%nat) (s3_payloads s) ->
+  forall t v (rest : list udp_event),
+  settings_ok t -> Forall (fault_ok s) v -> length v = S (N.to_nat (ts_retries_or_default t)) ->
+  exists e n', gs3_query port t (net_init (flat_map (fault_events2 s) v ++ rest) [] []) = (Err e, n')
+               /\ timeout_class e = true /\ n_udp n' = rest.
+Proof. exact gs3_retries_exhausted. Qed.
+Print Assumptions c10_gs3_retries_exhausted.
+Theorem c10_gs1_retries_exhausted : forall port s,
+  Forall pair_ok (s1_vars s) -> s1_qid s <= 18446744073709551615 ->
+  Forall (fun d => (length d <= 1024)%nat) (s1_script s) -> N.of_nat (length (s1_script s)) < 4294967296 ->
+  forall t ks (rest : list udp_event),
+  settings_ok t -> Forall (fun k => (k < length (s1_script s))%nat) ks -> length ks = S (N.to_nat (ts_retries_or_default t)) ->
+  exists e n', gs1_query port t (net_init (flat_map (silent_after s) ks ++ rest) [] []) = (Err e, n')
+               /\ timeout_class e = true /\ n_udp n' = rest.
+Proof. exact gs1_retries_exhausted. Qed.
+Print Assumptions c10_gs1_retries_exhausted.
+Theorem c10_jc2m_retries_exhausted : forall port s,
+  (- 2147483648 <= js_challenge s < 2147483648)%Z -> (length (show_Z (js_challenge s)) <= 10)%nat ->
+  forall t v (rest : list udp_event),
+  settings_ok t -> length v = S (N.to_nat (ts_retries_or_default t)) ->
+  exists e n', jc2m_query port t (net_init (flat_map (jc_fault_events s) v ++ rest) [] []) = (Err e, n')
+               /\ timeout_class e = true /\ n_udp n' = rest.
+Proof. exact jc2m_retries_exhausted. Qed.
+Print Assumptions c10_jc2m_retries_exhausted.
+
 Example c10_ex : (* two timeouts then a reply, r = 2 *)
   let att : M N := fun n => match n_udp n with
                             | Datagram d :: r => (Ok (lenN d), mknet r [] [] 0 None [])
